@@ -135,7 +135,11 @@ type Exec struct {
 	specPos         token.Pos
 	specErrors      []string
 	predFamilies    map[string][]string
-	assumedSafe map[string]bool
+	assumedSafe     map[string]bool
+	mergeMap        map[string][]mergeAlt
+	mergeSeq        []string
+	predBranch      map[string]map[string]string // merged-state instance -> branch pc -> branch instance
+	nJoinBridge     int
 	predBridges     []predBridge
 	nq              int
 	recInProgress   map[string]bool
@@ -240,6 +244,18 @@ type predBridge struct {
 	from, to string
 	ndecl    int
 	text     string
+	join     bool // bridge of a merged-state instance to a branch instance: included as soon as `from` occurs
+}
+
+// mergeAlt: at a control-flow join the merged name equals `term` under the branch's path condition pc.
+type mergeAlt struct{ pc, term string }
+
+func (e *Exec) noteMerge(name string, alts []mergeAlt) {
+	if e.mergeMap == nil {
+		e.mergeMap = map[string][]mergeAlt{}
+	}
+	e.mergeMap[name] = alts
+	e.mergeSeq = append(e.mergeSeq, name)
 }
 
 func (e *Exec) nDecls() int { return len(e.decls) }
@@ -527,9 +543,12 @@ func (e *Exec) merge(states []*State) *State {
 			continue
 		}
 		nv := e.fresh(k.Name(), first.Sort)
+		var alts []mergeAlt
 		for _, s := range live {
 			e.assumeGlobal(Implies(s.pc, Eq(nv, s.vars[k])))
+			alts = append(alts, mergeAlt{s.pc.S, s.vars[k].S})
 		}
+		e.noteMerge(nv.S, alts)
 		out.vars[k] = nv
 	}
 	hkeys := map[string]bool{}
@@ -556,9 +575,12 @@ func (e *Exec) merge(states []*State) *State {
 			continue
 		}
 		nv := e.fresh(k, first.Sort)
+		var alts []mergeAlt
 		for _, s := range live {
 			e.assumeGlobal(Implies(s.pc, Eq(nv, e.heapGet(s, k))))
+			alts = append(alts, mergeAlt{s.pc.S, e.heapGet(s, k).S})
 		}
+		e.noteMerge(nv.S, alts)
 		out.heap[k] = nv
 	}
 	return out
